@@ -42,6 +42,6 @@ def run(ctx):
              ["try_lock_handle", "try_lock_handle_for", "try_lock_handle_until"], "X")
     ctx.step(common.private_payload, ctx, "C01.private", WRAPPERS)
     ctx.step(common.raii_only, ctx, "C01.raii", FILES)
-    ctx.step(common.handle_deref_lifetime, ctx, "C01.lifetime", WRAPPERS, floor=1)
+    ctx.step(common.handle_deref_lifetime, ctx, "C01.lifetime", WRAPPERS, floor=0)
     ctx.step(common.lock_order, ctx, "C01.order")
     ctx.step(common.witnesses, ctx, "C01.witness", ["C01"])
